@@ -303,6 +303,9 @@ func c06Gen(t *rapid.T) C06Case {
 	n := rapid.IntRange(1, 6).Draw(t, "nrecs")
 	ts := int64(1700000000) * 1e9
 	st := gen.Stage{Kind: kind}
+	// pattern stage: a third of the cases use delimiters that are not ASCII (an arrow, guillemets,
+	// a degree sign) in the lines and in the literal parts of the pattern
+	wide := kind == "pattern" && rapid.IntRange(0, 2).Draw(t, "non-ascii-delimiters") == 0
 	var paths []string
 	for i := 0; i < n; i++ {
 		ts += 1e6
@@ -393,6 +396,10 @@ func c06Gen(t *rapid.T) C06Case {
 			method := rapid.SampledFrom([]string{"GET", "POST"}).Draw(t, "method")
 			path := rapid.SampledFrom([]string{"/", "/api/v1", "/a?b=c"}).Draw(t, "path")
 			rec.Line = gen.BS(fmt.Sprintf(`%s %s [%s] "%s %s" end`, addr, user, status, method, path))
+			if wide {
+				// the same fields between delimiters that are not ASCII
+				rec.Line = gen.BS(fmt.Sprintf(`%s → %s «%s» %s°C end`, addr, user, status, rapid.SampledFrom([]string{"21", "-3", "36.6"}).Draw(t, "temp")))
+			}
 			rec.Doc = &model.Doc{Format: "delim"}
 			if rapid.IntRange(0, 5).Draw(t, "nomatch") == 0 {
 				rec.Line = gen.BS("a line of another shape")
@@ -444,12 +451,21 @@ func c06Gen(t *rapid.T) C06Case {
 			`(?P<empty>x*)`,
 		}).Draw(t, "regex")
 	case "pattern":
-		st.Pattern = rapid.SampledFrom([]string{
-			`<addr> <user> [<status>] "<method> <path>" end`,
-			`<addr> <_> [<status>] <_>`,
-			`<app> <level> [<_>] "<rest>`,
-			`<_> <_> [<_>] "<method> <_>" <tail>`,
-		}).Draw(t, "pattern")
+		if wide {
+			st.Pattern = rapid.SampledFrom([]string{
+				`<addr> → <user> «<status>» <temp>°C end`,
+				`<_> → <user> «<_>» <_>`,
+				`<addr> → <rest>`,
+				`<_>«<status>»<_>°<unit> end`,
+			}).Draw(t, "wide-pattern")
+		} else {
+			st.Pattern = rapid.SampledFrom([]string{
+				`<addr> <user> [<status>] "<method> <path>" end`,
+				`<addr> <_> [<status>] <_>`,
+				`<app> <level> [<_>] "<rest>`,
+				`<_> <_> [<_>] "<method> <_>" <tail>`,
+			}).Draw(t, "pattern")
+		}
 		// A non-matching line is only required to be kept, unchanged: mostly keep only lines
 		// of the shape the patterns were written for (their extraction is modelled).
 		if rapid.IntRange(0, 3).Draw(t, "keep-other-shapes") != 0 {
